@@ -79,7 +79,7 @@ def check_from_str(inst, V, ctx, body, feature, okv):
                     bad('shape', 'string comparison %s is not between the argument and a constant' % show(g[1]), 'unrecognised'); return None
                 if tv:
                     trues.append(c)
-            val = S.path_return(body, path)
+            val = S.resolve_phi(S.path_return(body, path), path)       # `Some(match s { "A" => Self::A, .. })`: the payload is chosen on the path
             if len(trues) == 1:
                 v = variant_of(inst, val, okv)
                 if v is None:
